@@ -1,5 +1,6 @@
 import GmQuic.Lemmas.RecoveryBal
 import GmQuic.Lemmas.RecoverySorted
+import GmQuic.Lemmas.RecoverySortedInv
 /-!
 # C13 — loss detection and congestion control (qcongestion, NewReno)
 
@@ -11,6 +12,8 @@ by the fixed cases of the harness) + `…_partial`.
 -/
 namespace GmQuic.Props.C13
 open GmQuic.Recovery GmQuic.Gen
+
+def inp1 : Inp := { ld0 := 1, ld1 := 1, srtt0 := 1, rttvar0 := 1, srtt1 := 1, rttvar1 := 1 }
 
 /-! ## the congestion window never falls below two datagrams -/
 
@@ -62,6 +65,11 @@ theorem grow_only_outside_recovery (s s' : St) (i : Inp) (e : Nat) (a : Ack) (l 
   rw [hr] at h4
   simp only [decide_eq_false_iff_not, Nat.not_le] at h4
   exact h4
+
+example : ∃ (s s' : St) (l : List (Nat × List Nat)), 2 * s.mds ≤ s.cwnd ∧
+    onAckRcvd s inp1 2 { largest := 0, ranges := [(0, 0)], ce := none } = .ok (s', l) ∧ s.cwnd < s'.cwnd :=
+  ⟨{ bytes := 1200, s2 := { tl := some 0, sent := [{ pn := 0, ts := 0, elic := true, cc := true, size := 1200, st := PSt.I }] } },
+   _, _, by decide, rfl, by decide⟩
 
 /-! ## an acknowledged packet is never declared lost; loss needs one of the two thresholds -/
 
@@ -171,6 +179,32 @@ def spW : Space :=
 example : (detectLost { now := 100, s2 := spW } 2 50).toOption.map (·.2) = some [0, 1] := by decide
 example : Sorted (getSp { now := 100, s2 := spW } 2).sent := by
   unfold Sorted; decide
+
+/-- For every history from `ArcCC::new` whose sends use increasing packet numbers per space (`MonoHist`, the
+caller's obligation proved for the sent journal in C07), the three sent lists stay sorted by packet number … -/
+theorem sent_lists_sorted (server : Bool) (mtu mad : Nat) (s0 s : St) (h : List (Inp × Op))
+    (hi : initSt server mtu mad = .ok s0) (hr : run s0 h = .ok s) (hm : MonoHist s0 h) (e : Nat) :
+    Sorted (getSp s e).sent :=
+  (run_sorted hr (initSt_sorted hi) hm).get e
+
+/-- … hence in every reachable state a detection pass declares lost only `Inflight` packets that are older than the
+time threshold or at least three packet numbers below the largest acknowledged one. -/
+theorem lost_needs_threshold_reachable (server : Bool) (mtu mad : Nat) (s0 s s' : St) (h : List (Inp × Op))
+    (hi : initSt server mtu mad = .ok s0) (hr : run s0 h = .ok s) (hm : MonoHist s0 h)
+    (e ld : Nat) (lost : List Nat) (hd : detectLost s e ld = .ok (s', lost)) :
+    ∀ pn ∈ lost, ∃ p ∈ (getSp s e).sent, p.pn = pn ∧ p.st = PSt.I ∧
+      (p.ts + ld + (getSp s e).mad < s.now ∨ ∃ la, (getSp s e).la = some la ∧ pn + 3 ≤ la) :=
+  detectLost_pn hd (sent_lists_sorted server mtu mad s0 s h hi hr hm e)
+
+example : MonoHist w0 hist0 := by
+  refine ⟨trivial, fun s' o h1 => ⟨?_, fun _ _ _ => trivial⟩⟩
+  have : step w0 inp0 .grant = .ok ({ w0 with aaLimit := false }, {}) := rfl
+  rw [this] at h1
+  cases h1
+  intro q hq
+  have hnil : (getSp { w0 with aaLimit := false } 0).sent = [] := by decide
+  rw [hnil] at hq
+  cases hq
 
 /-! ## FALSE of the unchanged code: the probe timeout does not double -/
 
